@@ -12,7 +12,8 @@ namespace Jose.C01
 def Valid (P : Prims) (E : Env) (a : JwsAlgRow) (k : Key) (msg sig : Bytes) : Prop :=
   k.checkKeyOp E.ops "verify" = .ok () ∧
   ((a.cls = "HMACAlgModel" ∧ k.kty = "oct" ∧ P.hmac a.hash k.raw msg = .ok sig) ∨
-   ((a.cls = "RSAAlgModel" ∨ a.cls = "RSAPSSAlgModel") ∧ k.kty = "RSA" ∧ P.sigVerify a k msg sig = .ok true) ∨
+   ((a.cls = "RSAAlgModel" ∨ a.cls = "RSAPSSAlgModel") ∧ k.kty = "RSA" ∧ sig.length = (k.bits + 7) / 8 ∧
+      P.sigVerify a k msg sig = .ok true) ∨
    (a.cls = "EdDSAAlgModel" ∧ k.kty = "OKP" ∧ (k.crv = "Ed25519" ∨ k.crv = "Ed448") ∧
       P.sigVerify a k msg sig = .ok true) ∨
    (a.cls = "ECAlgModel" ∧ k.kty = "EC" ∧ k.crv = a.curve ∧ sig.length = 2 * ((k.bits + 7) / 8) ∧
@@ -36,13 +37,19 @@ theorem verify_true_valid (P : Prims) (E : Env) (a : JwsAlgRow) (k : Key) (msg s
     obtain ⟨u, hop, _, hk, hv⟩ := h
     cases u
     simp at hk
-    exact ⟨hop, Or.inr (Or.inl ⟨Or.inl hc, hk, hv⟩)⟩
+    by_cases hlen : sig.length = (k.bits + 7) / 8
+    · simp [hlen] at hv
+      exact ⟨hop, Or.inr (Or.inl ⟨Or.inl hc, hk, hlen, hv⟩)⟩
+    · simp [hlen] at hv
   · next hc =>
     simp only [bind_eq_ok, ensure_eq_ok] at h
     obtain ⟨u, hop, _, hk, hv⟩ := h
     cases u
     simp at hk
-    exact ⟨hop, Or.inr (Or.inl ⟨Or.inr hc, hk, hv⟩)⟩
+    by_cases hlen : sig.length = (k.bits + 7) / 8
+    · simp [hlen] at hv
+      exact ⟨hop, Or.inr (Or.inl ⟨Or.inr hc, hk, hlen, hv⟩)⟩
+    · simp [hlen] at hv
   · next hc =>
     simp only [bind_eq_ok, ensure_eq_ok] at h
     obtain ⟨_, hk1, _, hk2, h3⟩ := h
@@ -67,6 +74,25 @@ theorem c01_none_never_verifies (P : Prims) (E : Env) (a : JwsAlgRow) (k : Key) 
   intro h
   have := verify_true_valid P E a k msg sig h
   rcases this.2 with h1 | h1 | h1 | h1 <;> simp_all
+
+/-- An RSA signature (RSASSA-PKCS1-v1_5 or RSASSA-PSS) that is accepted has exactly the octet length of the modulus
+(RFC 8017 §8.1.2 / §8.2.2 step 1), whatever the primitive answers: the same integer with its leading zero octet removed,
+or with octets added at either end, never verifies. -/
+theorem c01_rsa_signature_length (P : Prims) (E : Env) (a : JwsAlgRow) (k : Key) (msg sig : Bytes)
+    (ha : a.cls = "RSAAlgModel" ∨ a.cls = "RSAPSSAlgModel")
+    (h : jwsVerify P E a msg sig k = .ok true) : sig.length = (k.bits + 7) / 8 := by
+  have hv := (verify_true_valid P E a k msg sig h).2
+  rcases hv with h1 | h1 | h1 | h1
+  · rcases ha with ha | ha <;> simp [ha] at h1
+  · exact h1.2.2.1
+  · rcases ha with ha | ha <;> simp [ha] at h1
+  · rcases ha with ha | ha <;> simp [ha] at h1
+
+/-- ... so truncating or extending an RSA signature is rejected (returns `false` or an error, never `true`). -/
+theorem c01_rsa_wrong_length_rejected (P : Prims) (E : Env) (a : JwsAlgRow) (k : Key) (msg sig : Bytes)
+    (ha : a.cls = "RSAAlgModel" ∨ a.cls = "RSAPSSAlgModel")
+    (hlen : sig.length ≠ (k.bits + 7) / 8) : jwsVerify P E a msg sig k ≠ .ok true :=
+  fun h => hlen (c01_rsa_signature_length P E a k msg sig ha h)
 
 /-- What `validate_compact` established when it returned `True`. -/
 structure Accepted (P : Prims) (E : Env) (K : KeyEnv) (reg : JwsRegistry) (key : KeyArg)
